@@ -1743,6 +1743,11 @@ def r_sig(ctx):
             recv_free = sig.get("input_regions", [{}])[0].get("free", []) if sig.get("input_regions") else []
             st = f.get("impl_self_ty", {})
             tied = (all(r in recv_free for r in free) and _shared_only(ctx, st) and not _is_exclusive_out(out) and not _has_mut_ref(out))
+            # ... or the lifetime is the receiver's own borrow, spelled out (`fn find<'a>(&'a self, ..) -> Option<ElementRef<'a>>` with 'a early-bound
+            # because a where-clause mentions it): the result is tied to the borrow of `self` exactly as with an elided lifetime
+            recv_ref_region = sig["inputs"][0].get("region") if sig["inputs"] and sig["inputs"][0].get("k") == "ref" else None
+            if not tied and recv_ref_region is not None and all(r == recv_ref_region for r in free):
+                tied = True
             if tied:
                 res.samples.append({"method": p, "receiver": st.get("s"), "verdict": "shared-only receiver: impl-level lifetime is the shared borrow it was built from"}) \
                     if len(res.samples) < 8 else None
